@@ -27,7 +27,14 @@ import (
 // Rand is splitmix64; every random choice of a run derives from one seed.
 type Rand struct{ s uint64 }
 
-func NewRand(seed uint64) *Rand { return &Rand{s: seed*0x9E3779B97F4A7C15 + 0x1234567} }
+// NewRand mixes the seed through the splitmix64 finalizer twice so that consecutive seeds give
+// unrelated streams (a plain `seed*G + c` start makes seed s+1 the stream of seed s shifted by one draw).
+func NewRand(seed uint64) *Rand {
+	r := &Rand{s: seed ^ 0x5DEECE66D1234567}
+	a := r.U64()
+	b := r.U64()
+	return &Rand{s: a ^ (b << 1) ^ seed}
+}
 
 func (r *Rand) U64() uint64 {
 	r.s += 0x9E3779B97F4A7C15
